@@ -210,6 +210,13 @@ def writeForever():
       # Avoid churning CPU when there are no metrics are in the cache
       time.sleep(1)
 
+  # The reactor has stopped. Write out what was stored while we were asleep,
+  # otherwise up to a second of datapoints is lost on every shutdown.
+  try:
+    writeCachedDataPoints()
+  except Exception:
+    log.err()
+
 
 def writeTags():
   while True:
